@@ -81,12 +81,24 @@ func (w *c09World) apply(ev string) error {
 		}
 		w.kaConn[c][h] = true
 		return err
+	case "abandoned-peer-request":
+		// a client asks for hosts and hangs up while they are being asked (its context ends before
+		// any host has answered): the hosts' connections are as open as before
+		ctx, cancel := context.WithCancel(context.Background())
+		defer cancel()
+		for _, c := range c09Conns {
+			h := w.pw.Host(c)
+			h.Mode, h.OnCall = vh.HostSilent, cancel
+			defer func() { h.Mode, h.OnCall = vh.HostAck, nil }()
+		}
+		w.pw.Peer(ctx, vh.Identities()[0], 5, "")
+		return nil
 	}
 	panic(ev)
 }
 
 func (w *c09World) events() []string {
-	var evs []string
+	evs := []string{"abandoned-peer-request"}
 	for _, c := range c09Conns {
 		if w.closed[c] {
 			continue
@@ -479,6 +491,37 @@ func c09Wire() vh.Unit {
 			step("peer-after-last-connection-closed-" + variant)
 			if !ok {
 				u.Violate("wire/closed-host-still-registered", fmt.Sprintf("a minute after the host's last connection ended (%s) a peer request still answers: %s", variant, last), nil)
+				return
+			}
+		}
+		// 4. a host that announces itself in a one-shot HTTP exchange has no connection once the
+		// exchange is over: whatever the pool answered, later peer requests find no connected host
+		for _, endpoint := range []string{"vipnode_connect", "vipnode_host"} {
+			var param interface{} = pool2ConnectHost()
+			if endpoint == "vipnode_host" {
+				param = vh.DefaultParam("vipnode_host", ids[2].NodeID)
+			}
+			c := vh.NewCall(endpoint, ids[2], vh.WireNonce(), param)
+			code, body, err := p.Post(vh.RequestText(c, 7))
+			u.Observe(fmt.Sprintf("http %s -> %d error=%v", endpoint, code, strings.Contains(body, `"error"`)))
+			if err != nil {
+				u.Violate("wire/http-post-failed", err.Error(), nil)
+				return
+			}
+			ok := false
+			var last string
+			for i := 0; i < 300 && !ok; i++ {
+				last = askPeers()
+				for n := 0; n <= 3 && !ok; n++ {
+					ok = strings.Contains(last, jsonEscaped(pool.NoHostNodesError{NumTried: n}.Error()))
+				}
+				if !ok {
+					time.Sleep(200 * time.Millisecond)
+				}
+			}
+			step("peer-after-http-" + endpoint)
+			if !ok {
+				u.Violate("wire/host-without-connection-registered", fmt.Sprintf("a host announced itself with %s in a one-shot HTTP POST (reply %d %s); with no connection left, a peer request still answers: %s", endpoint, code, abbreviate(body), last), nil)
 				return
 			}
 		}
